@@ -2,10 +2,24 @@
     This file contains only statements, each closed by [exact], and Print Assumptions. *)
 From Coq Require Import List Bool ZArith NArith.
 Import ListNotations.
-From Verif Require Import Common.ListX C19.Bencode C19.Spec C19.BencodeProofs.
+From Verif Require Import Common.ListX Gen.Tables C19.Bencode C19.Edn C19.Json C19.Spec
+  C19.BencodeProofs C19.EdnProofs C19.JsonProofs.
+Local Open Scope N_scope.
 
-(** ** bencode.  [wf]: no nil, dict keys strictly increasing (the order [encode] emits).
-    The fuel [decode]/[decode_all] supply is always sufficient: *)
+(** Obligations on the tables regenerated from edn.lpy / bencode.lpy *)
+Theorem C19_table_bencode_tokens : bencode_tokens = [105; 108; 100; 101; 58].
+Proof. exact eq_refl. Qed.
+(** every escape the writer emits is a backslash and a character the reader maps back to the
+    escaped one; the quote and the backslash are among the escaped characters *)
+Theorem C19_table_edn_escapes : EdnProofs.table_ok = true.
+Proof. exact edn_escape_tables_ok. Qed.
+(** the characters allowed in guarded names are no delimiters (edn.lpy dispatch-chars) *)
+Theorem C19_table_edn_dispatch_chars :
+  forallb EdnProofs.safe_facts (map N.of_nat (seq 33 94)) = true.
+Proof. exact safe_facts_all. Qed.
+
+(** ** bencode.  [wf]: no nil; in every dict the keys are strictly increasing byte strings
+    (the order [encode] itself emits).  For all values, all byte lists, no size bound. *)
 Theorem C19_bencode_fuel_sufficient : forall data, decode data <> DFuel /\ decode_all data <> None.
 Proof. exact (fun data => conj (decode_fuel data) (decode_all_fuel data)). Qed.
 
@@ -23,8 +37,77 @@ Proof. exact bencode_stream. Qed.
 Theorem C19_bencode_encode_is_reference : forall v, wf v = true -> encode v = ref_encode v.
 Proof. exact encode_ref. Qed.
 
+(** the premises are met by a nested value and a two-message stream cut inside the second *)
+Example C19_bencode_nonvacuous :
+  let m1 := BDict [([97], BList [BInt (-7); BStr []]); ([98], BStr [101])] in
+  let m2 := BInt 10 in
+  wf m1 = true /\ wf m2 = true /\
+  decode_all (firstn 21 (concat (map encode [m1; m2]))) = Some ([m1], [105; 49]).
+Proof. exact bencode_nonvacuous. Qed.
+
+(** ** EDN.  [guard]: names over safe ASCII characters, floats in exponent-free repr form
+    (and, for the EDN reader, keyword names without '.').  [pf] is CPython's
+    repr(float(.)), [isr t] says t is what repr prints for some float. *)
+Theorem C19_edn_string_escape_roundtrip : forall d s acc rest,
+  read_str_body d (escape s ++ 34 :: rest) acc = ROk (acc ++ s, rest).
+Proof. exact read_str_escape. Qed.
+
+Theorem C19_edn_roundtrip_partial : forall (pf : str -> option str) (isr : str -> bool),
+  (forall t, isr t = true -> pf t = Some t) ->
+  forall v, guard isr Edn v = true -> read_string pf Edn (write v) = ROk v.
+Proof. exact (fun pf isr H v => edn_roundtrip pf isr H Edn v). Qed.
+
+Theorem C19_edn_via_lisp_reader_partial : forall (pf : str -> option str) (isr : str -> bool),
+  (forall t, isr t = true -> pf t = Some t) ->
+  forall v, guard isr Lisp v = true -> read_string pf Lisp (write v) = ROk v.
+Proof. exact (fun pf isr H v => edn_roundtrip pf isr H Lisp v). Qed.
+
+Example C19_edn_guard_nonvacuous : forall d, guard (fun _ => true) d EdnProofs.sample = true.
+Proof. exact sample_guard. Qed.
+
+(** F-19a: the float the writer prints as 1e+23 reads back as the integer 1 *)
+Theorem C19_edn_float_exp_refuted :
+  exists tok, forall pf, read_string pf Edn (write (EFloat tok)) = ROk (EInt 1).
+Proof. exact edn_float_exp_refuted. Qed.
+
+(** F-19b: the keyword :a.b is written as ":a.b", which the EDN reader rejects (the Lisp
+    reader accepts it) *)
+Theorem C19_edn_kw_dot_refuted :
+  exists nm, forall pf, read_string pf Edn (write (EKw None nm)) = RErr 1
+                        /\ read_string pf Lisp (write (EKw None nm)) = ROk (EKw None nm).
+Proof. exact edn_kw_dot_refuted. Qed.
+
+(** F-19c: through the Lisp reader the same float text becomes the integer 10^23 *)
+Theorem C19_edn_via_lisp_float_exp_refuted :
+  exists tok, forall pf, read_string pf Lisp (write (EFloat tok)) = ROk (EInt (10 ^ 23)).
+Proof. exact lisp_float_exp_refuted. Qed.
+
+(** ** JSON: with Python's json.dumps/json.loads inverse on trees with distinct object keys,
+    read-str (write-str v) is the documented coercion of v *)
+Theorem C19_json_coercion : forall (dumps : pj -> str) (loads : str -> option pj),
+  (forall p, pj_wf p = true -> loads (dumps p) = Some p) ->
+  forall v, jkeys_distinct v = true -> read_str loads (write_str dumps v) = Some (coerce v).
+Proof. exact json_coercion. Qed.
+
+Example C19_json_nonvacuous :
+  jkeys_distinct (JMap [(JKKw (Some [110]) [97], JList [JKw None [107]; JSet [JInt 1]]); (JKStr [98], JNil)]) = true.
+Proof. exact eq_refl. Qed.
+
+Print Assumptions C19_table_bencode_tokens.
+Print Assumptions C19_table_edn_escapes.
+Print Assumptions C19_table_edn_dispatch_chars.
 Print Assumptions C19_bencode_fuel_sufficient.
 Print Assumptions C19_bencode_roundtrip.
 Print Assumptions C19_bencode_prefix_free.
 Print Assumptions C19_bencode_stream.
 Print Assumptions C19_bencode_encode_is_reference.
+Print Assumptions C19_bencode_nonvacuous.
+Print Assumptions C19_edn_string_escape_roundtrip.
+Print Assumptions C19_edn_roundtrip_partial.
+Print Assumptions C19_edn_via_lisp_reader_partial.
+Print Assumptions C19_edn_guard_nonvacuous.
+Print Assumptions C19_edn_float_exp_refuted.
+Print Assumptions C19_edn_kw_dot_refuted.
+Print Assumptions C19_edn_via_lisp_float_exp_refuted.
+Print Assumptions C19_json_coercion.
+Print Assumptions C19_json_nonvacuous.
